@@ -64,6 +64,17 @@ var C09Trees = []string{
 	"$v = a + 1, $w = $v * 2, [$v, $w]",
 	"vf(1, [2,3]...) + f(2,'x')",
 	"upper(left(s,2)) + toString(b) + join(['x','y'], '-') + (n ?? 'd')",
+	// data-dependent trees: each thread evaluates them with its OWN variant of the data
+	"[regexp(s, pat), regexp('zzz' + s, pat)]",
+	"timeFormat(useTimezone(t, zn), lay) + '|' + toString(hour(useTimezone(t, zn)))",
+	"[x + 1, toString(x), x == 1, vx(x)]",
+}
+
+// C09Variants: per-thread data variants for the data-dependent trees.
+var C09Variants = [][]interface{}{
+	{"pat", "^a", "zn", "UTC", "lay", "15:04", "x", 1.0, "vx", func(n float64) (float64, error) { return n * 2, nil }},
+	{"pat", "c$", "zn", "Asia/Shanghai", "lay", "15:04", "x", 2.5, "vx", func(n interface{}) (string, error) { return "any", nil }},
+	{"pat", "^zzz", "zn", "America/New_York", "lay", "2006-01-02 15", "x", "1", "vx", func(ns ...float64) (int, error) { return len(ns), nil }},
 }
 
 var c09Shared []*formula.SourceCode
@@ -93,28 +104,41 @@ func C09SharedUnchanged() string {
 	return ""
 }
 
-var c09OtherTexts = []string{"1 + 2 * (3 - x)", "f(a, [b, c]...) ? 'y' : \"n\"", "a.b!.c + len('中')"}
-var c09BadTexts = []string{"1 +\r\n(", "[a, b", "'open\n"}
+var c09OtherTexts = []string{"1 + 2 * (3 - x)", "f(a, [b, c]...) ? 'y' : \"n\"", "a.b!.c + len('中')", "'\\u4e2d\\x41' + \"\\u00e9\\n\" + 1_000.5e+1_0", "'\\u9fa5\\x42\\t' + .5e-3 + a.\nb"}
+var c09BadTexts = []string{"1 +\r\n(", "[a, b", "'open\n", "0x1F + 'a\\u12'", "1__0 + '\\x4'"}
 
 // C09Body returns the thread body named name ("eval:2", "fields:0", "parse:1", "bad:0").
 func C09Body(name string) func() string {
 	parts := strings.SplitN(name, ":", 2)
 	idx := 0
 	fmt.Sscan(parts[1], &idx)
+	variant := -1
+	if sub := strings.SplitN(parts[1], ":", 2); len(sub) == 2 {
+		fmt.Sscan(sub[0], &idx)
+		fmt.Sscan(sub[1], &variant)
+	}
+	evalOnce := func() string {
+		r := formula.NewRunner()
+		if variant >= 0 {
+			r.SetThis(c08With(C09Variants[variant]...)())
+		} else {
+			r.SetThis(c08Data())
+		}
+		o := safeResolve(r, bg, c09Shared[idx].Expression)
+		switch {
+		case o.panicked:
+			return "panic:" + o.panicMsg
+		case o.err != nil:
+			return "error:" + o.err.Error()
+		}
+		return showExact(o.val)
+	}
 	switch parts[0] {
 	case "eval":
-		return func() string {
-			r := formula.NewRunner()
-			r.SetThis(c08Data())
-			o := safeResolve(r, bg, c09Shared[idx].Expression)
-			switch {
-			case o.panicked:
-				return "panic:" + o.panicMsg
-			case o.err != nil:
-				return "error:" + o.err.Error()
-			}
-			return showExact(o.val)
-		}
+		return evalOnce
+	case "eval2":
+		// the same evaluation twice in a row (own runner each time): a corrupted cache shows on the second
+		return func() string { return evalOnce() + " ; " + evalOnce() }
 	case "fields":
 		return func() (obs string) {
 			defer func() {
@@ -189,6 +213,11 @@ func C09Scenarios(quick bool) [][]string {
 		sc = append(sc, []string{e, e}, []string{e, f}, []string{f, f}, []string{e, fmt.Sprintf("parse:%d", t%3)}, []string{e, fmt.Sprintf("bad:%d", t%3)}, []string{f, fmt.Sprintf("bad:%d", (t+1)%3)})
 	}
 	sc = append(sc, []string{"parse:0", "parse:1"}, []string{"parse:2", "bad:0"}, []string{"bad:1", "bad:2"}, []string{"bad:0", "bad:0"}, []string{"eval:0", "eval:3"}, []string{"eval:1", "eval:4"})
+	// data-dependent trees, each thread with its own data variant, evaluated twice
+	for _, t := range []int{6, 7, 8} {
+		sc = append(sc, []string{fmt.Sprintf("eval2:%d:0", t), fmt.Sprintf("eval2:%d:1", t)}, []string{fmt.Sprintf("eval2:%d:2", t), fmt.Sprintf("eval2:%d:2", t)}, []string{fmt.Sprintf("eval2:%d:1", t), fmt.Sprintf("eval:%d:2", t)})
+	}
+	sc = append(sc, []string{"parse:3", "parse:4"}, []string{"parse:3", "bad:3"}, []string{"bad:3", "bad:4"}, []string{"eval:6:0", "parse:4"})
 	// three threads
 	sc = append(sc, []string{"eval:0", "eval:0", "fields:0"}, []string{"eval:3", "fields:3", "parse:0"}, []string{"eval:4", "parse:1", "bad:0"})
 	if !quick {
@@ -201,6 +230,7 @@ func judgeSched(c SchedCase) *eng.Fail {
 	if !setYieldHook(sched.Point) {
 		return eng.F("harness/not-instrumented", "this binary was built without the yield-point overlay")
 	}
+	setBlockHook(sched.Block)
 	disableStepHook()
 	if c09Shared == nil {
 		if err := C09Setup(); err != nil {
@@ -225,6 +255,9 @@ func judgeSched(c SchedCase) *eng.Fail {
 }
 
 func schedVerdict(threads []string, x *sched.Exec) *eng.Fail {
+	if x.Deadlocked {
+		return eng.F("C09/deadlock", "threads %v deadlocked: no thread could proceed", threads)
+	}
 	for i, n := range threads {
 		if x.Obs[i] != c09Sequential[n] {
 			return eng.F("C09/result-differs", "thread %d (%s) observed\n  %s\nsequentially it observes\n  %s", i, n, tail200(x.Obs[i]), tail200(c09Sequential[n]))
@@ -232,6 +265,17 @@ func schedVerdict(threads []string, x *sched.Exec) *eng.Fail {
 	}
 	if msg := C09SharedUnchanged(); msg != "" {
 		return eng.F("C09/shared-tree-changed", "%s", msg)
+	}
+	// sequential probes after the schedule: the interleaving must not have left hidden state behind
+	done := map[string]bool{}
+	for _, n := range threads {
+		if done[n] {
+			continue
+		}
+		done[n] = true
+		if got := C09Body(n)(); got != c09Sequential[n] {
+			return eng.F("C09/state-left-behind", "after this schedule, %s run alone observes\n  %s\ninstead of\n  %s", n, tail200(got), tail200(c09Sequential[n]))
+		}
 	}
 	return nil
 }
@@ -242,6 +286,7 @@ func runC09(w *eng.W) {
 		w.Cap("leg A not run: instrumented build unavailable")
 		return
 	}
+	setBlockHook(sched.Block)
 	if err := C09Setup(); err != nil {
 		w.FailRaw("setup", err.Error(), eng.F("harness/setup", "%v", err))
 		return
@@ -256,7 +301,7 @@ func runC09(w *eng.W) {
 		}
 		heavy := false // parse bodies have ~5x the scheduling points of evaluations
 		for _, n := range sc {
-			if strings.HasPrefix(n, "parse") || strings.HasPrefix(n, "bad") {
+			if strings.HasPrefix(n, "parse") || strings.HasPrefix(n, "bad") || strings.HasPrefix(n, "eval2") {
 				heavy = true
 			}
 		}
